@@ -744,7 +744,9 @@ func verifReadPatchFaithful(a, b, c JsonNode) bool {
 	}
 	p, err := a.Diff(b).RenderPatch()
 	if err != nil {
-		return false
+		// jd may refuse to render a pointer through a key that reads as an array index; then there is
+		// nothing to read back
+		return !verifPointerExpressible(a) || !verifPointerExpressible(b)
 	}
 	d, err := ReadPatchString(p)
 	if err != nil {
@@ -1318,3 +1320,7 @@ func verifKeyedMembers(target jsonArray, pathKeys jsonObject, newV JsonNode) int
 	}
 	return 0
 }
+
+// verifObjectMembers (C04, C05, C01): Equals, "empty iff equal" and the round trip over arrays whose
+// object members differ only in how their keys and values are cut (verifAmbiguousObjectDocs).
+func verifObjectMembers(a, b JsonNode, options []Option) Diff { return a.Diff(b, options...) }
